@@ -142,7 +142,7 @@ def concordance(draw):
         kw["H0"] = draw(st.floats(30.0, 120.0))
     if draw(st.booleans()):
         ok = draw(st.floats(-0.05, 0.05))
-        if ok == 0.0:
+        if abs(ok) < OKMIN:
             ok = 0.01
         kw["omega_k"] = ok
         kw["omega_l"] = 1.0 - kw["omega_m"] - ok
@@ -503,7 +503,7 @@ def check_lensing(case, ctx):
 @st.composite
 def concordance_cases(draw):
     lowz = draw(st.booleans())
-    zz = st.floats(0.0, 1.0) if lowz else _z
+    zz = st.floats(0.0, 1.0).map(lambda z: 0.0 if z < ZMIN else z) if lowz else _z
     a, b = draw(zz), draw(zz)
     return {"ctor": draw(concordance()), "pair": [min(a, b), max(a, b)]}
 
